@@ -23,3 +23,21 @@ Definition mutator_table := list (pystr * shape).
 Definition table_safe (t : mutator_table) : bool := forallb (fun p => shape_safe (snd p)) t.
 Definition table_guarded (t : mutator_table) : bool := forallb (fun p => shape_guarded (snd p)) t.
 Definition unsafe_entries (t : mutator_table) : mutator_table := filter (fun p => negb (shape_safe (snd p))) t.
+
+(* ---- C04 additions (additive): accessors of the wrapper classes and of the base types ----
+   How a wrapper class treats one accessor (a method / operator / builtin consumer through which
+   contained objects can be reached).  GENERATED per wrapper by harness/gen.py. *)
+Inductive ashape :=
+| ANotOverridden          (* the base type's method: hands out the stored elements themselves *)
+| ADefensiveResult        (* return self._get_defensive_copy_if_needed(super().m(...)) *)
+| ADefensiveElems         (* generator whose elements go through _get_defensive_copy_if_needed *)
+| ADeepCopyIfImm          (* deepcopy(result) if self._is_immutable() else result *)
+| AIterProxy              (* ListIteratorProxy(self) when immutable: elements come through self[i] *)
+| AUnrecognised.          (* overridden in a form the translator does not understand: treated as raw *)
+
+(* what the accessor returns on the base type, found by probing with sentinels *)
+Inductive retkind :=
+| RElem                   (* a contained object itself *)
+| RFresh.                 (* a new container / iterator / view from which contained objects are reached *)
+
+Definition accessor_table := list (pystr * (ashape * retkind)).
